@@ -10,7 +10,7 @@ from pytransform3d.urdf import UrdfTransformManager
 from distance3d.broad_phase import BoundingVolumeHierarchy
 from distance3d import gjk, mpr, self_collision
 from dsim.worker import Skip
-from dsim.worlds.K_exec import build
+from dsim.worlds.K_exec import build, build_from
 
 
 def _names(pairs):
@@ -124,9 +124,13 @@ class Exec:
         e = self._bvh(op["b"] if "b" in op else op["a"])
         bvh, tm = e["bvh"], e["tm"]
         if k == "free":
-            tm.add_transform(op["frame"], op.get("parent", "origin"), np.array(op["pose"], dtype=float))
-            A2B = np.array(tm.get_transform(op["frame"], "origin"), dtype=float)
-            c = build(op["spec"], A2B)
+            arr = np.array(op["pose"], dtype=float)
+            tm.add_transform(op["frame"], op.get("parent", "origin"), arr)
+            e.setdefault("arrs", {})[op["frame"]] = arr
+            # the collider is constructed from what the manager hands out (for a frame attached directly to "origin"
+            # that is the registered array itself)
+            A2B = tm.get_transform(op["frame"], "origin")
+            c = build_from(op["spec"], A2B) if op["spec"]["kind"] != "hull" else build(op["spec"], A2B)
             bvh.add_collider(op["frame"], c)
             bvh.self_collision_whitelists_[op["frame"]] = list(op["wl"])
             for f in op.get("wl_into", []):  # asymmetric on purpose: others may or may not whitelist the new frame
@@ -142,7 +146,13 @@ class Exec:
             parent = e.get("parents", {}).get(op["frame"])
             if parent is None:
                 raise Skip()
-            tm.add_transform(op["frame"], parent, np.array(op["pose"], dtype=float))
+            arr = e.get("arrs", {}).get(op["frame"])
+            if op.get("inplace") and arr is not None:
+                arr[:] = np.array(op["pose"], dtype=float)  # same array object the manager holds
+            else:
+                arr = np.array(op["pose"], dtype=float)
+                tm.add_transform(op["frame"], parent, arr)
+                e.setdefault("arrs", {})[op["frame"]] = arr
             return {}
         if k == "base":
             tm.add_transform(e["base"], "origin", np.array(op["pose"], dtype=float))
